@@ -56,8 +56,15 @@ def dec_text(cps: Sequence[int]) -> str:
     return "".join(chr(c) for c in cps)
 
 
+UNREPRESENTABLE = [0]
+
+
 class Unrepresentable(Exception):
     """A Python value outside the spec's value model (big / inexact numbers...)."""
+
+    def __init__(self, *args):
+        super().__init__(*args)
+        UNREPRESENTABLE[0] += 1       # reported in the evidence: inputs dropped for this reason must stay a small minority
 
 
 def enc_num(x) -> Dict[str, Any]:
@@ -256,6 +263,7 @@ def run_tlc(
     seed: Optional[int] = None,
     coverage: bool = False,
     dfs_queue: bool = False,
+    to_file: bool = False,
 ) -> TlcResult:
     """Run TLC on SPEC/<module>.tla with the given cfg text."""
     sdir = os.path.join(scratch(), name)
@@ -284,6 +292,24 @@ def run_tlc(
     if env:
         e.update(env)
     t0 = time.time()
+    if to_file:
+        # very large exports (millions of PrintT lines): the output goes to a file, the result carries the lines
+        # that are not exports plus the path; the caller streams the file
+        opath = os.path.join(sdir, "tlc.out")
+        try:
+            with open(opath, "w") as fh:
+                p = subprocess.run(cmd, cwd=SPEC, env=e, stdout=fh, stderr=subprocess.STDOUT, text=True, timeout=timeout)
+        except subprocess.TimeoutExpired as err:
+            raise MachineryError(f"TLC timed out after {timeout}s on {module} ({name})") from err
+        wall = time.time() - t0
+        keep = []
+        with open(opath) as fh:
+            for line in fh:
+                if not line.startswith('"GEN '):
+                    keep.append(line)
+        res = TlcResult(p.returncode, "".join(keep), wall)
+        res.path = opath
+        return res
     try:
         p = subprocess.run(cmd, cwd=SPEC, env=e, capture_output=True, text=True, timeout=timeout)
     except subprocess.TimeoutExpired as err:
@@ -450,6 +476,7 @@ class Check:
     def finish(self) -> int:
         os.makedirs(EVIDENCE, exist_ok=True)
         wall = time.time() - self.t0
+        self.notes["values_outside_the_model_dropped"] = UNREPRESENTABLE[0]
         for fid, hit in sorted(self.known_hits.items()):
             f = hit["finding"]
             print(f"KNOWN-FINDING: property={self.prop} {fid}: {f['what']} ({hit['count']} case(s) this run)")
